@@ -8,5 +8,4 @@ CONSTANTS
 INVARIANT OrderInv
 INVARIANT ShapeInv
 INVARIANT StageFromSlot
-INVARIANT ChecksumInv
 CHECK_DEADLOCK FALSE
